@@ -122,18 +122,51 @@ def extract(src_dir=None):
         raise ValueError("request_type list not found in Error.parse")
     out["error_request_types"] = rts
 
-    # id bound in check_or_raise_id: `value < 0 or value > N`
+    # id bound of check_or_raise_id.  Read SEMANTICALLY (the function is executed in isolation and probed), so that
+    # an equivalent rewrite of the comparison (`value < 0 or value > N`, `not (0 <= value <= N)`, ...) does not
+    # break the translation; the syntactic reading is only the fallback.
     cid = None
-    for n in mt.body:
-        if isinstance(n, ast.FunctionDef) and n.name == "check_or_raise_id":
-            for c in ast.walk(n):
-                if isinstance(c, ast.Compare) and isinstance(c.left, ast.Name) and c.left.id == "value" \
-                        and isinstance(c.ops[0], ast.Gt) and isinstance(c.comparators[0], ast.Constant):
-                    cid = c.comparators[0].value
-                if isinstance(c, ast.Compare) and isinstance(c.left, ast.Name) and c.left.id == "value" \
-                        and isinstance(c.ops[0], ast.Lt) and isinstance(c.comparators[0], ast.Constant):
-                    if c.comparators[0].value != 0:
-                        raise ValueError("check_or_raise_id lower bound is not 0")
+    fn = next((n for n in mt.body if isinstance(n, ast.FunctionDef) and n.name == "check_or_raise_id"), None)
+    if fn is None:
+        raise ValueError("check_or_raise_id not found")
+    try:
+        import typing
+        ns = dict(vars(typing))
+        ns["ProtocolError"] = type("ProtocolError", (Exception,), {})
+        exec(compile(ast.Module(body=[fn], type_ignores=[]), "<check_or_raise_id>", "exec"), ns)
+
+        def ok(v):
+            try:
+                ns["check_or_raise_id"](v)
+                return True
+            except Exception:
+                return False
+        if ok(0) and not ok(-1) and ok(1):
+            hi = 1
+            while ok(hi) and hi < 2 ** 80:
+                hi *= 2
+            if hi < 2 ** 80:
+                lo = hi // 2          # ok(lo), not ok(hi)
+                while hi - lo > 1:
+                    mid = (lo + hi) // 2
+                    if ok(mid):
+                        lo = mid
+                    else:
+                        hi = mid
+                # the accepted set must be the interval [0, lo]
+                if all(ok(v) for v in (0, 1, 2, lo - 1, lo)) and not any(ok(v) for v in (lo + 1, lo + 2, 2 * lo + 1)):
+                    cid = lo
+        elif not ok(0) or ok(-1):
+            raise ValueError("check_or_raise_id lower bound is not 0")
+    except ValueError:
+        raise
+    except Exception:
+        cid = None
+    if cid is None:
+        for c in ast.walk(fn):
+            if isinstance(c, ast.Compare) and isinstance(c.left, ast.Name) and c.left.id == "value" \
+                    and isinstance(c.ops[0], ast.Gt) and isinstance(c.comparators[0], ast.Constant):
+                cid = c.comparators[0].value
     if type(cid) is not int:
         raise ValueError("id bound not found in check_or_raise_id")
     out["id_bound"] = cid
